@@ -525,6 +525,18 @@ def hof_models(I, st, caller, func, args, argtys, dest_ty):
         if op == "ok_or":
             outs.append(Outcome("return", EnumV("Result", 0, {0: (payload[0],)}) if isgood else EnumV("Result", 1, {1: (args[1],)}), s2))
             continue
+        if op in ("ok_or_else", "unwrap_or_else") and clos_ty is not None:
+            if isgood:
+                outs.append(Outcome("return", EnumV("Result", 0, {0: (payload[0],)}) if op == "ok_or_else" else payload[0], s2))
+            else:
+                body_ = I.prog.find_closure(clos_ty)
+                cargs_ = [] if body_ is not None and len(body_.params) == 1 else [payload[0]] if payload and payload[0] is not None else []
+                for o in call_closure(I, s2, caller, clos_ty, args[1], cargs_):
+                    if o.kind != "return":
+                        outs.append(o)
+                    else:
+                        outs.append(Outcome("return", EnumV("Result", 1, {1: (o.value,)}) if op == "ok_or_else" else o.value, o.state))
+            continue
         if op == "is_none_or" and not isgood:
             outs.append(Outcome("return", z3.BoolVal(True), s2))
             continue
